@@ -113,6 +113,38 @@ def run_incrementally(sources, name, thing):
     return out
 
 
+def run_reloaded(sources, name, thing):
+    """the manager is built (and the section collapsed once) while the sources still hold other content -- every section with stale values for
+    all keys, and a definition for every inherit target that the final content lacks -- then the sources are changed in place to their final
+    content and the manager reloaded: what the sources held before must not show"""
+    from pkgcore.config import basics, central, errors
+    keys = ("k1", "k2", "k3")
+    named = {i for src in sources for d in src.values() for i in d.get("inherit", ())}
+    have = {n for src in sources for n in src}
+    live = []
+    for i, src in enumerate(sources):
+        stale = {n: basics.HardCodedConfigSection(dict({k: v for k, v in d.items() if k in ("class",)}, **{k: f"stale:{n}.{k}" for k in keys})) for n, d in src.items()}
+        if i == 0:
+            for n in sorted(named - have):
+                stale[n] = basics.HardCodedConfigSection({k: f"stale:{n}.{k}" for k in keys})
+            stale["only-before-the-reload"] = basics.HardCodedConfigSection({"class": thing, "k1": "stale"})
+        live.append(stale)
+    mgr = central.ConfigManager(live)
+    try:
+        mgr.collapse_named_section(name)
+    except errors.ConfigurationError:
+        pass
+    for d, src in zip(live, sources):
+        d.clear()
+        d.update({n: basics.HardCodedConfigSection(dict(v)) for n, v in src.items()})
+    mgr.reload()
+    try:
+        c = mgr.collapse_named_section(name)
+        return "ok", {k: v for k, v in dict(c.config).items() if k not in SPECIAL}
+    except errors.ConfigurationError as e:
+        return "error", str(e)
+
+
 def enum_graphs(seed):
     import os
     thorough = os.environ.get("VERIF_TIER") == "thorough"
@@ -130,6 +162,16 @@ def enum_graphs(seed):
         if got[0] != want[0] or (got[0] == "ok" and got[1] != want[1]):
             if len(fails) < 5:
                 fails.append({"model": {"sources": sources}, "detail": f"{label}: sources {sources}: collapsing 's' gives {got}; breadth-first reference {want}"})
+        cases += 1
+        try:
+            got3 = run_reloaded(sources, name, thing)
+        except Exception as e:
+            got3 = ("raised", f"{type(e).__name__}: {e}")
+        if got3[0] != want[0] or (got3[0] == "ok" and got3[1] != want[1]):
+            if len(fails) < 5:
+                fails.append({"model": {"sources": sources, "changed_in_place_then_reloaded": True}, "detail": f"{label}: a manager built while the sources held stale definitions (other values for every key, and definitions of "
+                                                                                                             f"sections the final content lacks), the sources then changed in place to {sources} and reload() called: collapsing gives {got3}; "
+                                                                                                             f"breadth-first reference over the final content {want}"})
         if len(sources) > 1:
             cases += 1
             try:
@@ -230,7 +272,7 @@ def enum_graphs(seed):
     for b in bad + cross + [[dia()], [dia(d={"k3": "d.k3", "inherit": ["c"]})], [dia(d={"k3": "d.k3", "inherit": ["s"]})], [dia(), {"d": {"k3": "newer d.k3", "inherit": ["d"]}}]]:
         check(runtime_names(b), "section names made at run time (equal, not identical, strings)", name="section-" + "s")
     return {"name": "C43.collapse.bounded_enumeration", "bound": f"8 tree shapes over <= 5 sections (two ordered parents, two levels) x {120 if thorough else 40} seeded key assignments, each with one source, with a second source redefining a section and with further sources redefining the collapsed section "
-            "(self-inherit through the sources at any position among the bases), every multi-source case also with the sources added one by one and the section collapsed after each; 6 cyclic / dangling graphs, 3 cycles closing on a section first named by another one, 5 diamond-shaped ones (two of them with a cycle below the join), 13 of these again with section names that are run-time strings (equal but not identical objects)", "cases": cases, "failures": fails}
+            "(self-inherit through the sources at any position among the bases), every multi-source case also with the sources added one by one and the section collapsed after each, every case also on a manager built over stale content of the same sources that are then changed in place and reloaded; 6 cyclic / dangling graphs, 3 cycles closing on a section first named by another one, 5 diamond-shaped ones (two of them with a cycle below the join), 13 of these again with section names that are run-time strings (equal but not identical objects)", "cases": cases, "failures": fails}
 
 
 def t_render_value(ex):
@@ -302,7 +344,7 @@ def t_render_value(ex):
 
 
 def tasks():
-    return [Task("C43.collapse", None, [(CEN, "ConfigManager._get_inherited_sections"), (CEN, "ConfigManager.collapse_section"), (CEN, "ConfigManager.add_config_source"), (CEN, "ConfigManager.collapse_named_section")], enumerate=enum_graphs),
+    return [Task("C43.collapse", None, [(CEN, "ConfigManager._get_inherited_sections"), (CEN, "ConfigManager.collapse_section"), (CEN, "ConfigManager.add_config_source"), (CEN, "ConfigManager.collapse_named_section"), (CEN, "ConfigManager.reload"), (CEN, "ConfigManager._integrate_config_source")], enumerate=enum_graphs),
             Task("C43.render_value", t_render_value, [(CEN, "_ConfigStack.render_value")])]
 
 
